@@ -66,6 +66,7 @@ struct ThreadWorld {
 
 enum Cmd {
     Ev(usize),
+    EvOf(usize),
     Open(usize),
     OpenRoot(usize),
     Close,
@@ -99,6 +100,11 @@ fn spawn_thread(t: u64, d: tracing_core::Dispatch) -> ThreadWorld {
             let r = std::panic::catch_unwind(std::panic::AssertUnwindSafe(|| match cmd {
                 Cmd::Ev(i) => {
                     (cs[i].emit)();
+                    Rep::Done
+                }
+                Cmd::EvOf(k) => {
+                    // explicit parent: the outermost span this thread holds open
+                    stack::emit_of(k, &open[0]);
                     Rep::Done
                 }
                 Cmd::Open(i) => {
@@ -169,8 +175,8 @@ fn run_history(cfg: &Config, history: &[String]) -> StepOut {
         let bits_before = bits[t];
         // cached interest of the callsite about to be hit (F3 needs `always`: enabled() is skipped, so
         // nothing recomputes the stale bits; with `sometimes` enabled() runs and must overwrite them)
-        let cached_interest: Option<u8> = if matches!(p[1], "ev" | "open" | "openroot") {
-            let name = cs[p[2].parse::<usize>().unwrap()].meta.name;
+        let cached_interest: Option<u8> = if matches!(p[1], "ev" | "open" | "openroot" | "evof") {
+            let name = if p[1] == "evof" { stack::of_meta(p[2].parse().unwrap()).name } else { cs[p[2].parse::<usize>().unwrap()].meta.name };
             tracing::__macro_support::__verif_snapshot().iter().find(|(m, _, _)| m.name() == name).map(|(_, i, _)| *i)
         } else {
             None
@@ -222,6 +228,7 @@ fn run_history(cfg: &Config, history: &[String]) -> StepOut {
         // expected log entries for this step, per layer, in order
         let mut expected: Vec<(u8, String, String, Option<String>, Option<Vec<String>>)> = vec![]; // (layer, kind, name, current, scope)
         let mut emission: Option<(Meta, Vec<u8>)> = None;
+        let mut alt_scope: Vec<(u8, Vec<String>)> = vec![];
         let reply;
         match p[1] {
             "ev" => {
@@ -235,6 +242,26 @@ fn run_history(cfg: &Config, history: &[String]) -> StepOut {
                 }
                 emission = Some((m, r));
                 reply = call(&threads[t], Cmd::Ev(i));
+            }
+            "evof" => {
+                let k: usize = p[2].parse().unwrap();
+                let m = stack::of_meta(k);
+                let r = receivers(&m, &stacks[t]);
+                for l in &r {
+                    let ctx = visible_ctx(&stacks[t], *l);
+                    // a layer that does not see the explicit parent finds no span for the event
+                    // (the pinned behaviour) or, at most, the parent's own visible ancestors: never
+                    // a span outside the parent's chain
+                    let chain = scope_from(&stacks[t], Some(0), *l);
+                    if stacks[t][0].visible.contains(l) {
+                        expected.push((*l, "event".into(), m.name.into(), ctx.last().map(|s| s.to_string()), Some(chain)));
+                    } else {
+                        expected.push((*l, "event".into(), m.name.into(), ctx.last().map(|s| s.to_string()), Some(vec![])));
+                        alt_scope.push((*l, chain));
+                    }
+                }
+                emission = Some((m, r));
+                reply = call(&threads[t], Cmd::EvOf(k));
             }
             "open" | "openroot" => {
                 let i: usize = p[2].parse().unwrap();
@@ -336,7 +363,7 @@ fn run_history(cfg: &Config, history: &[String]) -> StepOut {
                 let g: Vec<&FEv> = got.iter().filter(|e| e.layer == l).collect();
                 let e: Vec<&(u8, String, String, Option<String>, Option<Vec<String>>)> = expected.iter().filter(|x| x.0 == l).collect();
                 let same = g.len() == e.len()
-                    && g.iter().zip(e.iter()).all(|(g, e)| g.kind == e.1 && g.name == e.2 && (e.1 == "record" || g.current == e.3) && e.4.as_ref().map_or(true, |s| &g.scope == s));
+                    && g.iter().zip(e.iter()).all(|(g, e)| g.kind == e.1 && g.name == e.2 && (e.1 == "record" || g.current == e.3) && e.4.as_ref().map_or(true, |s| &g.scope == s || alt_scope.iter().any(|(al, a)| *al == l && &g.scope == a)));
                 if !same {
                     ok = false;
                     if g.is_empty() && !e.is_empty() {
@@ -404,6 +431,12 @@ fn run_history(cfg: &Config, history: &[String]) -> StepOut {
         if stacks[t].len() < cfg.max_spans {
             for i in 6..9 {
                 next.push(format!("{}:open:{}", t, i));
+            }
+            // (explicit-parent events only when the parent is not the current span)
+            if stacks[t].len() >= 2 && stacks[t][0].created {
+                for k in 0..2 {
+                    next.push(format!("{}:evof:{}", t, k));
+                }
             }
             // explicit roots only above an entered span (elsewhere they equal the contextual ones)
             if !stacks[t].is_empty() {
@@ -478,6 +511,10 @@ fn warm_up() {
         for i in 6..9 {
             drop(stack::open_root(i));
         }
+        let sp = stack::open_root(6);
+        stack::emit_of(0, &sp);
+        stack::emit_of(1, &sp);
+        drop(sp);
     });
     stack::flog_clear();
 }
